@@ -73,6 +73,8 @@ struct Knobs {
     int keep_alive = 60;
     bool conformant = true;
     int hostile_count_pct = 0, hostile_rc_pct = 0;   // SUBACK/UNSUBACK with wrong count; acks with inadmissible reason codes
+    int invalid_pub_pct = 0;     // publishes that fail validation (must be refused at once and leave no trace in quota / ids)
+    int rm_change_pct = 0;       // the broker announces a different Receive Maximum (or none) on later connections
 };
 
 ref::Props pub_props(vu::Rng& rng, bool rich) {
@@ -112,6 +114,10 @@ Scenario gen_mix(vu::Rng& rng, const Knobs& k, const std::string& family) {
     sc.ccfg.client_id = "c" + std::to_string(rng.below(1000));
     int rm = rng.pick(k.rm_choices);
     if (rm > 0) sc.bcfg.caps.receive_maximum = (uint16_t)rm;
+    if (k.rm_change_pct && (int)rng.below(100) < k.rm_change_pct) {
+        int n = (int)rng.range(2, 4);
+        for (int i = 0; i < n; ++i) sc.bcfg.receive_maximum_script.push_back(rng.pick(std::vector<int>{0, 0, 1, 2, 3, 8}));
+    }
     sc.bcfg.ack_delay_max = k.ack_delay_max ? (vt)rng.range(0, k.ack_delay_max) : 0;
     sc.bcfg.lose_session_pct = k.lose_session_pct;
     sc.bcfg.fail_rc_pct = k.fail_rc_pct; sc.bcfg.alt_success_rc_pct = k.alt_rc_pct; sc.bcfg.ack_props_pct = k.ack_props_pct;
@@ -132,6 +138,11 @@ Scenario gen_mix(vu::Rng& rng, const Knobs& k, const std::string& family) {
         p.props = pub_props(rng, k.rich_props);
         if ((int)rng.below(100) >= k.burst_pct) t += (vt)rng.range(0, k.span / std::max(1, npubs));
         p.at = t;
+        if (k.invalid_pub_pct && (int)rng.below(100) < k.invalid_pub_pct) {
+            // refused by validation: wildcard in a topic name, or a User Property that is not UTF-8
+            if (rng.chance(1, 2)) { p.topic = "bad/#"; p.expect_immediate = true; p.expect_ec = 104; }
+            else { ref::Prop u; u.id = 0x26; u.s1 = "k"; u.s2 = "\xC3\x28"; p.props = {u}; p.expect_immediate = true; p.expect_ec = 100; }
+        }
         sc.script.push_back(p);
     }
     for (int i = 0; i < k.subs; ++i) {
@@ -243,8 +254,9 @@ Knobs knobs_for(const std::string& family) {
     else if (family == "c03-mix") { k.qos_w[0] = 1; k.qos_w[1] = 1; k.qos_w[2] = 4; k.faults_max = 3; k.rm_choices = {0, 1, 2, 3}; }
     else if (family == "c04-mix") { k.pubs_max = 4; k.inbound = 8; k.faults_max = 3; k.lose_session_pct = 25; k.subs = 1; }
     else if (family == "c05-mix") { k.suffix = 15 * SEC; }
+    else if (family == "c06-rm-change") { k.pubs_min = 3; k.pubs_max = 30; k.burst_pct = 80; k.faults_max = 3; k.qos_w[0] = 3; k.big_payload_pct = 0; k.inbound = 0; k.subs = 0; k.rm_change_pct = 100; k.ack_delay_max = 100 * MS; }
     else if (family == "c06-mix") { k.pubs_min = 2; k.pubs_max = 60; k.burst_pct = 70; k.faults_max = 3; k.qos_w[0] = 2; k.big_payload_pct = 2; k.inbound = 0; k.subs = 0; }
-    else if (family == "c07-mix") { k.pubs_min = 4; k.pubs_max = 30; k.burst_pct = 80; k.rm_choices = {1, 1, 2, 3, 4, 8, 65535}; k.qos_w[0] = 1; k.faults_max = 2; k.ack_delay_max = 200 * MS; k.inbound = 1; k.subs = 0; }
+    else if (family == "c07-mix") { k.pubs_min = 4; k.pubs_max = 30; k.burst_pct = 80; k.rm_choices = {1, 1, 2, 3, 4, 8, 65535}; k.qos_w[0] = 1; k.faults_max = 2; k.ack_delay_max = 200 * MS; k.inbound = 1; k.subs = 0; k.invalid_pub_pct = 8; k.rm_change_pct = 30; }
     else if (family == "c08-mix") { k.pubs_min = 5; k.pubs_max = 40; k.subs = 2; k.unsubs = 2; k.faults_max = 2; k.inbound = 3; }
     else if (family == "c11-mix") { k.keep_alive = 2; k.faults_max = 3; k.bad_attempts_max = 3; k.pubs_max = 8; k.ack_delay_max = 500 * MS; k.suffix = 60 * SEC; }
     else if (family == "c13-mix") { k.pubs_max = 4; k.subs = 2; k.faults_max = 3; k.lose_session_pct = 60; k.inbound = 2; }
@@ -760,6 +772,8 @@ void run_exhaustion(Judge& j) {
     for (int k = 0; k < 65535; ++k) { Action p; p.kind = Action::publish; p.at = 1 * SEC; p.qos = 1; p.topic = "e"; p.payload = ""; sc.script.push_back(p); }
     { Action p; p.kind = Action::publish; p.at = 2 * SEC; p.qos = 1; p.topic = "over"; p.payload = ""; sc.script.push_back(p); }
     { Action p; p.kind = Action::subscribe; p.at = 2 * SEC; p.subs = {{"over", 0}}; sc.script.push_back(p); }
+    { Action p; p.kind = Action::unsubscribe; p.at = 2 * SEC; p.subs = {{"over", 0}}; sc.script.push_back(p); }
+    { Action p; p.kind = Action::publish; p.at = 2 * SEC; p.qos = 2; p.topic = "over2"; p.payload = ""; sc.script.push_back(p); }
     // the broker wakes up and acknowledges one exchange; afterwards a new request must get an identifier again
     { Action w; w.kind = Action::set_silent; w.at = 3 * SEC; w.qos = 0; sc.script.push_back(w); }
     { Action k; k.kind = Action::net_kill; k.at = 3 * SEC + 1 * MS; sc.script.push_back(k); }
@@ -769,12 +783,12 @@ void run_exhaustion(Judge& j) {
     auto ex = execute(sc);
     j.judge(sc, *ex, false, true);
     auto& ops = ex->world->h.ops;
-    int overrun_early = 0; bool over_pub = false, over_sub = false, after_ok = false;
+    int overrun_early = 0; bool over_pub = false, over_sub = false, after_ok = false, over_pub_all = true, over_sub_all = true;
     for (auto& o : ops) {
         bool overrun = o.completions && o.ec.category() == boost::mqtt5::client::get_error_code_category() && o.ec.value() == 103;
         if (o.t_init == 1 * SEC && overrun) ++overrun_early;
-        if (o.t_init == 2 * SEC && o.kind == OpKind::pub1) over_pub = overrun;
-        if (o.t_init == 2 * SEC && o.kind == OpKind::sub) over_sub = overrun;
+        if (o.t_init == 2 * SEC && (o.kind == OpKind::pub1 || o.kind == OpKind::pub2)) over_pub = over_pub_all = over_pub_all && overrun;
+        if (o.t_init == 2 * SEC && (o.kind == OpKind::sub || o.kind == OpKind::unsub)) over_sub = over_sub_all = over_sub_all && overrun;
         if (o.t_init == 30 * SEC) after_ok = o.completions && !o.ec;
     }
     j.res.count("exhaustion_scenarios");
@@ -966,6 +980,7 @@ int run_families(const FamilyCtx& ctx, vu::Result& res) {
     } else if (P == "C06") {
         Knobs k = knobs_for("c06-mix");
         run_mix(j, k, "c06-mix", T ? 150000 : 3000);
+        run_mix(j, knobs_for("c06-rm-change"), "c06-rm-change", T ? 60000 : 1500);
     } else if (P == "C07") {
         Knobs k = knobs_for("c07-mix");
         run_mix(j, k, "c07-mix", T ? 150000 : 3000);
